@@ -116,6 +116,19 @@ class PathFinder:
         a = n.ast
         if n.kind == "stmt" and isinstance(a, (ast.Assign, ast.AnnAssign)):
             targets = a.targets if isinstance(a, ast.Assign) else [a.target]
+            # `a, b = x, y`: element-wise
+            pairs_ = []
+            for t in targets:
+                if isinstance(t, (ast.Tuple, ast.List)) and isinstance(a.value, (ast.Tuple, ast.List)) and len(t.elts) == len(a.value.elts) \
+                        and not any(isinstance(e, ast.Starred) for e in list(t.elts) + list(a.value.elts)):
+                    pairs_ += list(zip(t.elts, a.value.elts))
+            for t_, v_ in pairs_:
+                if isinstance(t_, ast.Name):
+                    out += _value_facts(t_.id, v_)
+                    if isinstance(v_, ast.Name):
+                        ds = self.df.reaching(n, v_.id)
+                        if ds and all(d.kind == "except" for d in ds):
+                            out.append((("isnone", t_.id, frozenset([t_.id])), False))
             for t in targets:
                 if isinstance(t, ast.Name):
                     out += _value_facts(t.id, a.value)
